@@ -9,8 +9,9 @@ type Options struct {
 	PreemptBound int // max preemptions per execution (switching away from a thread that could continue)
 	DataBound    int // max non-default data choices per execution
 	Horizon      int // max choice points per execution (0: default)
-	Shard        int // this process explores the top-level subtrees k with k % Shards == Shard
+	Shard        int // this process explores the subtrees k (numbered in DFS order at depth SplitDepth) with k % Shards == Shard
 	Shards       int
+	SplitDepth   int // depth (number of non-default answers) at which subtrees are dealt out; 0 = automatic
 	Stop         func() bool
 }
 
@@ -35,6 +36,16 @@ func Explore(o Options, mk func() (main func(), done func(x *Exec))) Stats {
 	if o.Shards <= 0 {
 		o.Shards = 1
 	}
+	// Subtrees are dealt out round robin at a depth where they are small (a free alternative - the
+	// other thread first when a thread ends - roots a subtree as large as the whole search, so depth 1
+	// balances badly). Nodes above that depth are executed by every shard (cheap) and counted by shard 0.
+	split := o.SplitDepth
+	if split <= 0 {
+		split = 1
+		if o.PreemptBound+o.DataBound >= 2 {
+			split = 2
+		}
+	}
 	top := 0
 	var rec func(prefix []int, depth int)
 	rec = func(prefix []int, depth int) {
@@ -44,7 +55,7 @@ func Explore(o Options, mk func() (main func(), done func(x *Exec))) Stats {
 		}
 		main, done := mk()
 		x := Run(prefix, o.Horizon, main)
-		skipRoot := depth == 0 && o.Shard != 0
+		skipRoot := depth < split && o.Shard != 0
 		if !skipRoot {
 			st.Executions++
 			st.Steps += int64(len(x.Steps))
@@ -97,7 +108,7 @@ func Explore(o Options, mk func() (main func(), done func(x *Exec))) Stats {
 						continue
 					}
 				}
-				if depth == 0 {
+				if depth == split-1 {
 					k := top
 					top++
 					if k%o.Shards != o.Shard {
